@@ -30,6 +30,9 @@ def tmpdir():
 def build(kind='opt'):
     """Return (path, None) or (None, compiler output)."""
     cc, flags = FLAGS[kind]
+    cov = os.environ.get('ZMON_COV_DIR')
+    if cov and kind in ('opt', 'dbg'):
+        return _build_cov(cov)
     out = os.path.join(tmpdir(), kind)
     os.makedirs(out, exist_ok=True)
     so = os.path.join(out, '_zope_interface_coptimizations' + sysconfig.get_config_var('EXT_SUFFIX'))
@@ -38,6 +41,23 @@ def build(kind='opt'):
     inc = sysconfig.get_paths()['include']
     cmd = [cc, '-shared', '-fPIC', '-fwrapv', '-Wall', '-I', inc] + flags + [CSRC, '-o', so]
     p = subprocess.run(cmd, capture_output=True, text=True, timeout=600)
+    if p.returncode != 0 or not os.path.exists(so):
+        return None, (p.stdout + p.stderr)[-4000:]
+    return so, None
+
+
+def _build_cov(cov):
+    """Measuring build (tools/ccov.py): gcc --coverage, counters accumulate in <cov>/zi.gcda across all workers."""
+    os.makedirs(cov, exist_ok=True)
+    so = os.path.join(cov, '_zope_interface_coptimizations' + sysconfig.get_config_var('EXT_SUFFIX'))
+    if os.path.exists(so):
+        return so, None
+    inc = sysconfig.get_paths()['include']
+    obj = os.path.join(cov, 'zi.o')
+    p = subprocess.run(['gcc', '-c', '-fPIC', '-fwrapv', '-O0', '-g', '--coverage', '-I', inc, CSRC, '-o', obj],
+                       capture_output=True, text=True, timeout=600)
+    if p.returncode == 0:
+        p = subprocess.run(['gcc', '-shared', '--coverage', obj, '-o', so], capture_output=True, text=True, timeout=600)
     if p.returncode != 0 or not os.path.exists(so):
         return None, (p.stdout + p.stderr)[-4000:]
     return so, None
